@@ -8,6 +8,7 @@ import (
 	"math/big"
 	"strconv"
 	"strings"
+	"sync/atomic"
 
 	"gocv/smt"
 	"gocv/sx"
@@ -618,7 +619,15 @@ func (ev *Eval) call(e *ast.CallExpr) TV {
 			saved := ev.P.Heap
 			ev.P.Heap = ev.OldHeap
 			defer func() { ev.P.Heap = saved }()
-			return ev.Old.Eval(e.Args[0])
+			// entry-state variables, plus the quantifier-bound variables
+			// that are in scope at the use of old()
+			o := ev.Old.child()
+			for k, v := range ev.Vars {
+				if _, has := ev.Old.Vars[k]; !has && k != "result" && !strings.HasPrefix(k, "result") {
+					o.Vars[k] = v
+				}
+			}
+			return o.Eval(e.Args[0])
 		case "len":
 			v := ev.Eval(e.Args[0])
 			switch x := v.V.(type) {
@@ -814,9 +823,9 @@ func (ev *Eval) quant(forall bool, fl *ast.FuncLit) TV {
 	return TV{smt.Exists(vars, t), boolT}
 }
 
-var qseq int
+var qseq int64
 
-func quantSeq() int { qseq++; return qseq }
+func quantSeq() int { return int(atomic.AddInt64(&qseq, 1)) }
 
 // rangeOf recognises "lo <= i && i < hi ==> P" (forall) or
 // "lo <= i && i < hi && P" (exists) with concrete bounds.
